@@ -214,6 +214,12 @@ def main(tier, seed):
     rep.explanation = "direct form of getBH_level1 for all batch lengths (z3) + covariance lemma (normal form); level-2 plumbing bounded"
     fails = level1_direct(rep)
     sfails = covariance_standin(rep, tier, seed)
+    # second sentence of the property: "position and orientation of a source are honoured exactly as 'local frame placed in the global frame'"
+    # (at every path index, shorter paths staying at their last pose): direct form through level 2, term-exact
+    ns = level2.harness_ns()
+    nst, nel, lfails, sample = level2.sweep(ns, tier, seed + 3, "c03", fields=("B",), sumups=(False,), aggs=(None,))
+    level2.report(rep, "level-2 direct form: element = R_src[m]·F(R_src[m]^-1(observer - p_src[m])) at every path index (term-exact)", nst, nel, lfails, sample,
+                  "<= 4 sources, path lengths <= 3 (shorter paths stay at their last pose), <= 2 sensors")
     msg = native_covariance(seed)
     for name, why in fails:
         if msg:
